@@ -5,6 +5,7 @@
    Property theorems only, each closed by `exact` + Print Assumptions. *)
 From Coq Require Import Reals Lra QArith ZArith String List Bool Sorted.
 From PG Require Import Lib.Num Lib.Py Gen.CharactGen Charact.Ols Charact.Window Charact.ListAux Charact.BetLang Charact.TPlot Charact.DrDa Charact.BetAuto Charact.DaSearch.
+From PG Require Import Gen.EntryGlueGen Charact.EntryGlue.
 Import ListNotations.
 Open Scope R_scope.
 
@@ -149,6 +150,54 @@ Print Assumptions da_search_recovers_given_global_minimiser_partial.
 Theorem da_search_bracket : da_search_lower RNum = 1 /\ da_search_upper RNum = 3.
 Proof. exact DaSearch.search_bounds. Qed.
 Print Assumptions da_search_bracket.
+
+
+(* ---- the isotherm ENTRY POINTS (area_BET, area_langmuir, t_plot, alpha_s, da_plot; dr_plot delegates to da_plot). Gen/EntryGlueGen.v is
+   GENERATED from the statements before the call of the raw function (tools/py2v_entryglue.py, fail-closed: a scalar handed over must be
+   assigned once, unconditionally, from isotherm.temperature / adsorbate.molar_mass() / adsorbate.liquid_density(.) / get_prop). Tk is the
+   isotherm's `temperature` property - kelvin whatever the stored temperature_unit (C02) -, rho the adsorbate's liquid density as a FUNCTION of
+   the temperature it is asked at. The scalars handed over are Tk itself and the properties at Tk, under the raw function's own parameter names *)
+Theorem entry_points_hand_over_the_kelvin_temperature_and_the_properties_at_it : forall (Tk M cs : R) (rho : R -> R),
+  da_plot_scalars R Tk M rho = [("iso_temp", Tk); ("molar_mass", M); ("liquid_density", rho Tk)]%string /\
+  t_plot_scalars R Tk M rho = [("liquid_density", rho Tk); ("adsorbate_molar_mass", M)]%string /\
+  alpha_s_scalars R Tk M rho = [("liquid_density", rho Tk); ("adsorbate_molar_mass", M)]%string /\
+  area_BET_scalars R cs = [("cross_section", cs)]%string /\ area_langmuir_scalars R cs = [("cross_section", cs)]%string.
+Proof. exact glue_scalars. Qed.
+Print Assumptions entry_points_hand_over_the_kelvin_temperature_and_the_properties_at_it.
+Theorem entry_points_read_relative_pressure_and_molar_loading :
+  (area_BET_loading_units, area_langmuir_loading_units, da_plot_loading_units) =
+    (let u := [("loading_basis", "molar"); ("loading_unit", "mol")]%string in (u, u, u)) /\
+  (t_plot_loading_units, alpha_s_loading_units) = (let u := [("loading_basis", "molar"); ("loading_unit", "mmol")]%string in (u, u)) /\
+  Forall (fun u => u = [("pressure_mode", "relative")]%string)
+    [area_BET_pressure_units; area_langmuir_pressure_units; t_plot_pressure_units; alpha_s_pressure_units; da_plot_pressure_units].
+Proof. exact glue_units. Qed.
+Print Assumptions entry_points_read_relative_pressure_and_molar_loading.
+(* hence the recovery theorems carry over to the entry points: da_plot / dr_plot return V0, the characteristic ENERGY E and the slope for data
+   that follow the DA equation at the isotherm's kelvin temperature (p, l = the relative pressures / mol loadings the isotherm yields) *)
+Theorem da_plot_entry_point_recovers : forall (Tk M : R) (rho : R -> R) (V0 E m : R) (p l : list R) limits r,
+  0 < V0 -> 0 < E -> 0 < m -> 0 < Tk -> 0 < M -> 0 < rho Tk ->
+  StronglySorted Rlt p -> Forall2 (da_data V0 E m Tk M (rho Tk)) p l ->
+  (let a := fun n => arg n (da_plot_scalars R Tk M rho) 0 in
+   da_plot_raw RNum ln exp Rpower p l (a "iso_temp"%string) (a "molar_mass"%string) (a "liquid_density"%string) m limits) = Ok r ->
+  da_volume r = V0 /\ da_energy r = E /\ da_slope r = - Rpower (gas_R * Tk / (1000 * E)) m /\ da_intercept r = ln V0 /\
+  da_window r = da_window_of RNum p limits /\ da_rsq r = 1.
+Proof. exact da_plot_entry_recovers. Qed.
+Print Assumptions da_plot_entry_point_recovers.
+Theorem t_plot_entry_point_recovers : forall (Tk M : R) (rho : R -> R) (ts ls : list R) (s i lo hi : R),
+  Forall2 (affine i s) ts ls -> (0 < length ts)%nat ->
+  two_distinct (take_idx 0 (flatnonzero_open RNum lo hi ts 0) ts) ->
+  s * (nmax RNum ts / nmax RNum ls) < 3 ->
+  let a := fun n => arg n (t_plot_scalars R Tk M rho) 0 in
+  exists r, t_plot_raw RNum ls ts (a "liquid_density"%string) (a "adsorbate_molar_mass"%string) lo hi = Ok (Some r) /\
+    tp_slope r = s /\ tp_intercept r = i /\ tp_area r = s * M / rho Tk /\ tp_volume r = i * M / rho Tk / 1000.
+Proof. exact t_plot_entry_recovers. Qed.
+Print Assumptions t_plot_entry_point_recovers.
+Theorem area_BET_entry_point_recovers : forall (cs nm C : R) (p l : list R) limits r, 0 < nm -> 0 < C ->
+  StronglySorted Rlt p -> Forall2 (bet_data nm C) p l ->
+  area_BET_raw RNum sqrt p l (arg "cross_section"%string (area_BET_scalars R cs) 0) limits = Ok r ->
+  b_nm r = nm /\ b_c r = C /\ b_pm r = 1 / (sqrt C + 1) /\ b_area r = nm * cs * / 10 ^ 18 * avogadro.
+Proof. exact area_BET_entry_recovers. Qed.
+Print Assumptions area_BET_entry_point_recovers.
 
 Example ols_hypotheses_satisfiable : Forall2 (affine 1 2) [0; 1; 3] [1; 3; 7] /\ two_distinct [0; 1; 3].
 Proof. exact ols_exact_satisfiable. Qed.
